@@ -5,6 +5,8 @@ import RzmqModel.Props.C12
 #print axioms Rzmq.C12.matches_iff
 #print axioms Rzmq.C12.trie_refines_multiset
 #print axioms Rzmq.C12.sub_delivers_iff
+#print axioms Rzmq.C12.subscribe_unsubscribe_restores
+#print axioms Rzmq.C12.delivery_depends_only_on_the_multiset
 #print axioms Rzmq.C12.empty_subscription_matches_all
 #print axioms Rzmq.C12.unsubscribe_absent_noop
 #print axioms Rzmq.C12.topics_iff
